@@ -687,7 +687,7 @@ struct Engine : public vf::Engine {
                     else cpputest_free_location(p, file, line);
                 } else det.deallocMemory(fa, p, file, line, S.route == 1);
                 expectReports(W, oi, on, cat);
-                if (S.route == 2 && S.tracked && S.size > 0 && cat == -1 && modelActual(W, fa) == modelActual(W, S.allocator)) { probe("free_seam_observed");
+                if (S.route == 2 && S.tracked && S.size > 0 && (cat == -1 || cat == 2) && modelActual(W, fa) == modelActual(W, S.allocator)) { probe("free_seam_observed"); if (cat == 2) fired("overrun_block_reaches_free_seam");      // a block reported as overrun is still a released block: its user bytes are overwritten like any other's
                     if (!HEAP.watchSeen) fail(W, "C06", "poison_before_release", sg("what", "block never reached the free seam"), sfmt("op %zu", oi));
                     else if (HEAP.watchLeft) fail(W, "C06", "poison_before_release", sg("what", "user bytes not overwritten"), sfmt("op %zu: %zu of %zu user bytes still held the caller's data when the block was returned (family %s)", oi, HEAP.watchLeft, S.size, famAlloc[fam])); }
                 HEAP.watchFree = 0;
